@@ -19,15 +19,15 @@ import (
 
 // ---------------------------------------------------------------- pools
 
-var fileKeys = []string{"a", "b", "c", "goos", "pkg", "é", "k-1", "µ", "a.b", "x/y"}
+var fileKeys = []string{"a", "b", "hit%", "c", "goos", "pkg", "é", "k-1", "µ", "a.b", "x/y", "a%d", "x%%y"}
 var internalOnlyKeys = []string{".file", ".label", ".x"}
 
 // groups of values of equal length (in-place edits stay in place)
 var valueGroups = [][]string{
-	{"1", "2", "3", "x", ":"},
-	{"v1", "v2", "v3", "xy", "é"},
-	{"linux", "amd64", "arm64", "x y z", "a:b:c"},
-	{"/usr/local/go", "golang.org/x/", "Benchmark 1 2", "Unit ns/op a="},
+	{"1", "2", "3", "x", ":", "%"},
+	{"v1", "v2", "v3", "xy", "é", "%d", "%s", "%v", "%%"},
+	{"linux", "amd64", "arm64", "x y z", "a:b:c", "a%20b", "100%!", "%!d()"},
+	{"/usr/local/go", "golang.org/x/", "Benchmark 1 2", "Unit ns/op a=", "100% coverage", "%[1]d %+v %x%"},
 	{"x\ry", "a\tb", "v: ", "k:v"},
 	{"a-rather-long-value-that-needs-a-new-buffer", "another-long-value-of-the-very-same-length!!"},
 }
@@ -430,6 +430,19 @@ func apiCorpus() {
 			c.write(&benchfmt.Result{Name: benchfmt.Name(n), Iters: 1, Values: val})
 		}
 	})
+	// '%' in file-configuration values and keys (the writer must print them verbatim)
+	run("api", func(c *caseB) {
+		c.tag("corpus")
+		c.tag("percent")
+		res := &benchfmt.Result{Name: benchfmt.Name("X"), Iters: 1, Values: val}
+		setFile(res, "cpu-load", "85%")
+		setFile(res, "note", "100% coverage run")
+		setFile(res, "hit%", "%v %20 %% %d %s")
+		c.write(res)
+		setFile(res, "note", "%")
+		res.SetConfig("hit%", "")
+		c.write(res)
+	})
 	// N1
 	run("api", func(c *caseB) {
 		c.tag("corpus")
@@ -581,7 +594,8 @@ func longCorpus(r *hx.Rand) {
 
 // ---------------------------------------------------------------- texts through the real reader
 
-var textValues = []string{"1", "x", "x y", "linux", "v:1", "é", "\xff", "Benchmark", ":", "x\ry", "a  ", "v1", "v2"}
+var textValues = []string{"1", "x", "x y", "linux", "v:1", "é", "\xff", "Benchmark", ":", "x\ry", "a  ", "v1", "v2",
+	"85%", "100% coverage run", "%v", "%20", "%%", "%", "%d %s", "50%%"}
 
 func genLine(r *hx.Rand, ks []string) string {
 	switch x := r.Intn(20); {
@@ -707,6 +721,7 @@ var textCorpus = []string{
 	"Unit ns/op better=lower\nUnit ns/op better=lower assume=exact\nUnit sec/op better=higher\nBenchmarkX 1 1 ns/op\n",
 	"a: 1\nBenchmarkX 1 1 ns/op\nBenchmarkX 1\nBenchmarkY x 1 ns/op\na: 2\nBenchmarkX 1 1 ns/op\n",
 	"a:  \t x  \nBenchmarkX\t1\t1\tns/op\v2\fMB/s\r\n",
+	"cpu-load: 85%\nnote: 100% coverage run\nhit%: %v %20 %%\nBenchmarkX 1 1 ns/op\nhit%:\nnote: %d\nBenchmarkX 1 1 ns/op\n",
 	"BenchmarkBenchmarkDecode-8 200 7 ns/op\nBenchmarkBenchmark 1 1 ns/op\nBenchmarkBenchmarkBenchmark 1 1 ns/op\nBenchmarkbenchmark 1 1 ns/op\nBenchmarkBench 1 1 ns/op\n",
 }
 
